@@ -220,7 +220,12 @@ pub fn gen_case(rng: &mut Rng, _thorough: bool, case: u64) -> J {
         std::process::Command::new(std::env::current_exe().unwrap()).arg("signal-child").output().ok()
             .and_then(|o| serde_json::from_slice::<J>(&o.stdout).ok()).unwrap_or(json!("no-output"))
     } else { J::Null };
-    json!({"mode": "run", "immLimit": imm_limit, "nearTarget": near_target, "signalTwin": signal_twin, "nullGuess": null_guess, "stdoutNoise": stdout_noise, "stalledLate": stalled_late, "configs": cfgs, "criteria": crits.iter().map(|c| c.0.clone()).collect::<Vec<_>>(), "nc": nc, "threaded": threaded, "barrier": barrier, "immediate": immediate, "tiny": scale != 1.0, "failAt": fail_at,
+    // ... and the two-termination-requests-while-draining experiment (interrupt and time limit, in either order)
+    let signal_drain = if case % 59 == 5 || case % 59 == 34 {
+        std::process::Command::new(std::env::current_exe().unwrap()).arg("signal-drain-child").arg(if case % 59 == 5 { "sigint-first" } else { "limit-first" }).output().ok()
+            .and_then(|o| serde_json::from_slice::<J>(&o.stdout).ok()).unwrap_or(json!("no-output"))
+    } else { J::Null };
+    json!({"mode": "run", "signalDrain": signal_drain, "immLimit": imm_limit, "nearTarget": near_target, "signalTwin": signal_twin, "nullGuess": null_guess, "stdoutNoise": stdout_noise, "stalledLate": stalled_late, "configs": cfgs, "criteria": crits.iter().map(|c| c.0.clone()).collect::<Vec<_>>(), "nc": nc, "threaded": threaded, "barrier": barrier, "immediate": immediate, "tiny": scale != 1.0, "failAt": fail_at,
            "calls": calls.load(Ordering::SeqCst), "maxLive": max_live.load(Ordering::SeqCst), "ret": ret,
            "csvRows": rows.len(), "rowObjs": row_objs, "rowInputs": row_inputs, "bestFile": best_file, "bestLate": best_late, "stalledStarted": stalled_started,
            "sampleSize": ss_run, "rowPairs": if immediate { json!(row_pairs) } else { J::Null }, "callPairs": if immediate { json!(call_pairs) } else { J::Null }})
@@ -247,6 +252,36 @@ pub fn signal_child() -> J {
         out.push(json!({"ret": ret, "calls": calls.load(Ordering::SeqCst)}));
     }
     json!(out)
+}
+
+/// C04 with TWO termination requests reaching the command loop of `async_launch::launch` while the run is draining:
+/// the only evaluation in flight ignores the abort request and needs 700 ms; an interrupt (SIGINT to this very process)
+/// and the time limit arrive 100 ms and 400 ms into the run, in either order.  The launch-layer model (`Launch.lrun`
+/// on `[terminate, terminate, ctlDone]`) answers: one abort request, then the controller's own result.  Runs in a
+/// process of its own (`cvh signal-drain-child <order>`): the interrupt handler can be installed once per process.
+pub fn signal_drain_child(sigint_first: bool) -> J {
+    struct SlowDeaf { calls: Arc<AtomicUsize> }
+    #[async_trait::async_trait]
+    impl cambrian::meta::AsyncObjectiveFunction for SlowDeaf {
+        async fn evaluate(&self, _v: J, _abort: async_broadcast::Receiver<()>, _seed: u64, _id: usize) -> Result<Option<f64>, Error> {
+            self.calls.fetch_add(1, Ordering::SeqCst);
+            tokio::time::sleep(Duration::from_millis(700)).await;
+            Ok(Some(0.25))
+        }
+    }
+    let calls = Arc::new(AtomicUsize::new(0));
+    let (sig_ms, limit_ms) = if sigint_first { (100u64, 400u64) } else { (400, 100) };
+    std::thread::spawn(move || {
+        std::thread::sleep(Duration::from_millis(sig_ms));
+        let _ = nix::sys::signal::kill(nix::unistd::Pid::this(), nix::sys::signal::Signal::SIGINT);
+    });
+    let spec = spec_util::from_yaml_str(SPEC).unwrap();
+    let cfg = AlgoConfigBuilder::new().build().unwrap();
+    let t0 = std::time::Instant::now();
+    let res = std::panic::catch_unwind(std::panic::AssertUnwindSafe(|| sync_launch::launch_with_async_obj_func(spec, SlowDeaf { calls: calls.clone() }, cfg,
+        vec![TerminationCriterion::Signal, TerminationCriterion::TerminateAfter(Duration::from_millis(limit_ms))], None, false, None)));
+    let ret = match res { Err(_) => json!("panic"), Ok(Ok(r)) => json!({"ok": [r.num_obj_func_eval_completed, r.num_obj_func_eval_rejected, order_code(r.best_seen.obj_func_val)]}), Ok(Err(e)) => json!({"err": e.to_string()}) };
+    json!({"sigintFirst": sigint_first, "events": ["terminate", "terminate", "ctlDone"], "ret": ret, "calls": calls.load(Ordering::SeqCst), "ms": t0.elapsed().as_millis() as u64})
 }
 
 /// two runs with a child-process objective function, one after the other on ONE thread, with different specs: what
